@@ -33,7 +33,7 @@ RULE = (
     "or a table with >= 2 entries is permuted"
 )
 SPACE = {
-    "quick": "drivers: (i) 2-D pad on 2-face tables linking both axes x rule pairs x fill pairs x 2-D width sets; (ii) equivalent() on all pairs of 2-3-name signatures and their renamings; (iii) Grid(ds) for COMODO/SGRID datasets with 2-4 axes; (iv) get_metric/integrate on 3-axis registries with several partitions; every execution with at most 2 non-default order choices (each choice ranges over all permutations of that set / table); literal seeds 0..11",
+    "quick": "drivers: (i) 2-D pad on 2-face tables linking both axes x rule pairs x fill pairs x 2-D width sets; (ii) equivalent() on all pairs of 2-3-name signatures and their renamings; (iii) Grid(ds) for COMODO/SGRID datasets with 2-4 axes; (iv) get_metric/integrate on 3-axis registries with several partitions; (v) 2-D and 3-D pad on simple grids with per-axis rules and fill values; (vi) accept/reject of consistent and inconsistent 3-face link tables under every listing order; every execution with at most 2 non-default order choices (each choice ranges over all permutations of that set / table); literal seeds 0..11",
     "thorough": "more tables/width sets/registries; all combinations of all permutations (no deviation bound, cap 6000 executions per configuration reported if hit); literal seeds 0..47",
 }
 BOUNDS = {"quick": {"seeds": 12, "deviations": 2}, "thorough": {"seeds": 48, "deviations": None}}
@@ -290,11 +290,78 @@ def run_metric(cfg):
     return digest(tuple(m.dims), m.values, tuple(it.dims), it.values)
 
 
-DRIVERS = {"pad": run_pad, "equiv": run_equiv, "comodo": run_parse, "sgrid": run_parse, "metric": run_metric}
+# ------------------------------------------------------------------ driver (v): pad on simple grids
+SIMPLE_RULES = (("fill", "fill", "fill"), ("fill", "extend", "fill"), ("extend", "fill", "periodic"), ("periodic", "fill", "fill"))
+SIMPLE_FILLS = ((-2.0, -1.0, 4.0), (0.0, 3.0, 0.0))
+
+
+def simple_configs(tier):
+    cfgs = []
+    for nax in (2, 3):
+        for ri in range(len(SIMPLE_RULES)):
+            for fi in range(len(SIMPLE_FILLS)):
+                for wi, w in enumerate(((1, 1), (1, 0), (2, 1))):
+                    cfgs.append(("simple", nax, ri, fi, wi))
+    return cfgs
+
+
+def run_simple(cfg):
+    from xgcm import Grid
+    from xgcm.padding import pad
+
+    _, nax, ri, fi, wi = cfg
+    axes = ("X", "Y", "Z")[:nax]
+    w = ((1, 1), (1, 0), (2, 1))[wi]
+    n = 2
+    ds = xr.Dataset(coords={f"{a.lower()}c": (f"{a.lower()}c", np.arange(n) + 0.5) for a in axes} | {f"{a.lower()}g": (f"{a.lower()}g", np.arange(n) * 1.0) for a in axes})
+    g = Grid(ds, coords={a: {"center": f"{a.lower()}c", "left": f"{a.lower()}g"} for a in axes}, periodic=False, autoparse_metadata=False)
+    dims = [f"{a.lower()}c" for a in axes]
+    da = xr.DataArray(np.arange(n ** nax, dtype=float).reshape((n,) * nax) + 1, dims=dims)
+    # the listing order of boundary_width is an argument of the call (it fixes the order of padding on a
+    # simple grid), so it is kept fixed here: the result, corner cells included, must then be unique
+    bw = {a: w for a in axes}
+    r = pad(da, g, bw, boundary={a: SIMPLE_RULES[ri][i] for i, a in enumerate(axes)}, fill_value={a: SIMPLE_FILLS[fi][i] for i, a in enumerate(axes)})
+    return digest(tuple(r.dims), r.values)
+
+
+# ------------------------------------------------------------------ driver (vi): accept / reject of link tables
+def table_configs(tier):
+    """three-face tables, consistent and inconsistent: the verdict must not depend on the listing order"""
+    base = T.table_of([((0, "X", 1), (1, "X", 0))], 3)
+    cfgs = []
+    claims = [((2, "X", 0), (0, "X", False)), ((2, "X", 1), (1, "X", False)), ((2, "Y", 0), (0, "X", True)), ((2, "X", 0), (1, "X", True)), None]
+    for ci in range(len(claims)):
+        cfgs.append(("table", ci))
+    return cfgs
+
+
+def run_table(cfg):
+    from xgcm import Grid
+
+    claims = [((2, "X", 0), (0, "X", False)), ((2, "X", 1), (1, "X", False)), ((2, "Y", 0), (0, "X", True)), ((2, "X", 0), (1, "X", True)), None]
+    table = {f: {A: list(pair) for A, pair in ax.items()} for f, ax in T.table_of([((0, "X", 1), (1, "X", 0))], 3).items()}
+    claim = claims[cfg[1]]
+    if claim is not None:
+        (f, A, side), link = claim
+        table.setdefault(f, {}).setdefault(A, [None, None])[side] = link
+    table = {f: {A: tuple(pair) for A, pair in ax.items()} for f, ax in table.items()}
+    N = 2
+    ds = xr.Dataset(coords={"x": ("x", np.arange(N)), "xl": ("xl", np.arange(N) - 0.5), "y": ("y", np.arange(N)),
+                            "yl": ("yl", np.arange(N) - 0.5), "face": ("face", [0, 1, 2])})
+    listed = permuted_dict({f: permuted_dict(ax, "axes-of-face") for f, ax in table.items()}, "faces")
+    try:
+        Grid(ds, coords={"X": {"center": "x", "left": "xl"}, "Y": {"center": "y", "left": "yl"}}, face_connections={"face": listed},
+             periodic=False, autoparse_metadata=False)
+        return "accepted"
+    except Exception:
+        return "rejected"
+
+
+DRIVERS = {"pad": run_pad, "equiv": run_equiv, "comodo": run_parse, "sgrid": run_parse, "metric": run_metric, "simple": run_simple, "table": run_table}
 
 
 def all_configs(tier):
-    return pad_configs(tier) + sig_pairs(tier) + parse_configs(tier) + metric_configs(tier)
+    return pad_configs(tier) + sig_pairs(tier) + parse_configs(tier) + metric_configs(tier) + simple_configs(tier) + table_configs(tier)
 
 
 def cfg_json(cfg):
